@@ -176,6 +176,16 @@ def mutate(x, how, r, shared_hint=None):
     raise AssertionError(how)
 
 
+def unrelated_work(idx, n=4500, per_record=150):
+    d = pm.ProvDocument()
+    d.add_namespace("w", "http://work.example/%d/" % idx)
+    for k in range(0, n, per_record):
+        # few records (the background monitors look at every record added), many names and values
+        d.entity("w:e%d" % k, [("w:a%d" % i, "value %d of %d" % (i, idx)) for i in range(k, k + per_record)]
+                 + [("prov:type", d.valid_qualified_name("w:t%d" % i)) for i in range(k, k + per_record, 3)])
+    d.serialize(format="json")
+
+
 def judge(ctx, idx, case):
     ctx.hub.context = {"check": ID, "idx": idx}
     r = random.Random(case["seed"])
@@ -288,6 +298,11 @@ def judge(ctx, idx, case):
             ctx.count("derive.%s.raised.%s" % (dname, type(e).__name__))
             continue
         ctx.count("derive.%s.ok" % dname)
+        if idx % 37 == 7:
+            # the process does other work between the derivation and what follows: a document with thousands of names and values of
+            # its own is built, exported and dropped (whatever the library keeps per process -- tables, caches -- sees a lot of traffic)
+            unrelated_work(idx)
+            ctx.count("unrelated_work_between_derivation_and_mutation")
         if view(src) != src_before:
             # the deriving operation itself is not a modification of the source
             after = view(src)
@@ -362,6 +377,8 @@ def floors(counters, tier, extra):
             n = sum(v for k, v in counters.items() if k.startswith("judged.") and k.endswith(".%s.%s" % (m, side)))
             if n < need:
                 out.append("mutator %s on %s judged only %d times" % (m, side, n))
+    if counters.get("unrelated_work_between_derivation_and_mutation", 0) < need:
+        out.append("unrelated work between derivation and mutation only %d times" % counters.get("unrelated_work_between_derivation_and_mutation", 0))
     if counters.get("alias_walks", 0) < need:
         out.append("structural walk ran only %d times" % counters.get("alias_walks", 0))
     out.extend(common.cov_floor(extra))
@@ -374,6 +391,6 @@ LEVEL_TEXT = ("Exploration by runtime observation: for generated documents and e
               "(add attribute / record / namespace / default namespace / bundle) is applied to the result or to the source and the other side's "
               "strict content and namespace view are compared before/after; a structural walk intersecting the identities of the mutable "
               "containers of both object graphs directs the mutation through any shared object."
-              " Derivations include add_record into the record's own document, update(self), second-order unified() and deepcopy; mutators include supplying a missing formal attribute and writing through every container when the structural walk sees sharing.")
+              " Derivations include add_record into the record's own document, update(self), second-order unified() and deepcopy; mutators include supplying a missing formal attribute and writing through every container when the structural walk sees sharing; one case in 37 does unrelated work (a document with 4500 names and values) between derivation and mutation.")
 LEVEL_NOTE = "Trusted: snapshots; immutable-by-convention value objects are deliberately not treated as shared state. Bounded documents."
 DESIGN_REF = "DESIGN.md section 5 (ALIAS) and section 6, C12"
